@@ -17,6 +17,7 @@ import (
 	"berty.tech/weshnet/v2/internal/vacct"
 	"berty.tech/weshnet/v2/pkg/errcode"
 	"berty.tech/weshnet/v2/pkg/protocoltypes"
+	"berty.tech/weshnet/v2/pkg/secretstore"
 )
 
 // C13: event listings follow log order and honour since/until/reverse exactly.
@@ -156,10 +157,12 @@ type c13World struct {
 	msgW   []cid.Cid
 }
 
-func c13Setup(t *testing.T) *c13World {
+func c13Setup(t *testing.T) *c13World { return c13SetupOpts(t, nil) }
+
+func c13SetupOpts(t *testing.T, ssOpts *secretstore.NewSecretStoreOptions) *c13World {
 	x := &c13World{}
-	x.w = vNewReplica(t, "W", nil)
-	x.r = vNewReplica(t, "R", nil)
+	x.w = vNewReplicaOpts(t, "W", nil, ssOpts)
+	x.r = vNewReplicaOpts(t, "R", nil, ssOpts)
 	g, _, err := NewGroupMultiMember()
 	if err != nil {
 		t.Fatalf("harness: %v", err)
